@@ -150,8 +150,9 @@ class Raised(Exception):
 class World:
     def __init__(self):
         self.live = []
-        self.ext_ids = []
-        self.ext_other = []
+        self.ext = []          # (kind, object) of everything the caller holds, in creation order
+        self.ext_ids = []      # the ID arrays among them
+        self.ext_id_idx = []   # ... and their positions in self.ext
         self.calls = []
         self.recipe = []
         self.prev_after = []
@@ -206,8 +207,10 @@ class World:
                 "id_unknown": unknown, "dict_share": dict_share, "dict_dup": dict_dup, "kept": kept}
 
     def ext_snaps(self):
-        return ([[str(x) for x in a] for a in self.ext_ids],
-                [ext_other_snap(k, o) for k, o in self.ext_other])
+        return [[str(x) for x in o] if k == "ids" else ext_other_snap(k, o) for k, o in self.ext]
+
+    def hold(self, kind, obj):
+        self.ext.append((kind, obj))
 
     # ---- recording one call
     def record(self, name, args, recv, inplace, results, raised, ref, old_indptr, extra=None):
@@ -221,10 +224,9 @@ class World:
                 self.live.append(r)
                 res_idx.append(len(self.live) - 1)
         after = [snap(t) for t in self.live]
-        ei, eo = self.ext_snaps()
         rec = {"name": name, "args": args, "raised": bool(raised), "inplace": bool(inplace), "recv": recv,
                "results": res_idx, "result_contents": [after[i] for i in res_idx], "ref": ref, "after": after,
-               "ext_ids": ei, "ext_other": eo, "facts": self.facts(old_indptr), "poke": 0}
+               "ext": self.ext_snaps(), "ext_id_idx": list(self.ext_id_idx), "facts": self.facts(old_indptr), "poke": 0}
         if raised:
             rec["error"] = raised
         if extra:
@@ -244,6 +246,8 @@ class World:
         before, old = self.pre()
         a = np.array(list(ids))
         self.ext_ids.append(a)
+        self.ext_id_idx.append(len(self.ext))
+        self.hold("ids", a)
         self.recipe.append(["ext_ids", list(ids)])
         self.record("ext_ids", {"ids": list(ids)}, 0, False, [], None, None, old)
         return len(self.ext_ids) - 1
@@ -259,14 +263,14 @@ class World:
         kw = {}
         if route == "dense":
             data = arr
-            self.ext_other.append(("ndarray", data))
+            self.hold(*("ndarray", data))
         elif route == "nested":
             data = [[float(x) for x in r] for r in arr.tolist()]
             kw["input_is_dense"] = True
-            self.ext_other.append(("nested", data))
+            self.hold(*("nested", data))
         elif route in ("csr", "csc", "coo", "lil"):
             data = getattr(sp, route + "_matrix")(arr)
-            self.ext_other.append(("sparse", data))
+            self.hold(*("sparse", data))
         elif route == "csr_unsorted":
             data = sp.csr_matrix(arr)
             for i in range(data.shape[0]):
@@ -274,7 +278,7 @@ class World:
                 data.indices[s:e] = data.indices[s:e][::-1].copy()
                 data.data[s:e] = data.data[s:e][::-1].copy()
             data.has_sorted_indices = False
-            self.ext_other.append(("sparse", data))
+            self.hold(*("sparse", data))
         elif route == "csr_zeros":
             rows, cols, vals = [], [], []
             for i in range(arr.shape[0]):
@@ -282,17 +286,17 @@ class World:
                     rows.append(i); cols.append(j); vals.append(arr[i, j])
             data = sp.csr_matrix((np.array(vals, dtype=float), (np.array(rows, dtype=int), np.array(cols, dtype=int))),
                                  shape=arr.shape)
-            self.ext_other.append(("sparse", data))
+            self.hold(*("sparse", data))
         else:
             raise ValueError(route)
         if arr.size == 0 and route in ("dense", "nested"):
             data = sp.csr_matrix(arr)
             kw = {}
-            self.ext_other[-1] = ("sparse", data)
+            self.ext[-1] = ("sparse", data)
         if omd is not None:
-            self.ext_other.append(("md", omd))
+            self.hold(*("md", omd))
         if smd is not None:
-            self.ext_other.append(("md", smd))
+            self.hold(*("md", smd))
         oids = self.ext_ids[obs_src] if obs_src is not None else list(spec["obs"])
         sids = self.ext_ids[samp_src] if samp_src is not None else list(spec["samp"])
         t = Table(data, oids, sids, omd, smd, type=spec.get("type"), **kw)
@@ -439,7 +443,8 @@ def op_args(name, p, cur, res, W):
     if name == "partition":
         return {"axis": ax, "remove_empty": bool(p.get("remove_empty", False))}
     if name == "merge":
-        return {"others": [p["other"]]}
+        return {"others": [p["other"]],
+                "union_union": p.get("sample", "union") == "union" and p.get("observation", "union") == "union"}
     if name == "concat":
         return {"others": list(p["others"])}
     if name == "align_to":
